@@ -369,3 +369,64 @@ proof fn lemma_live_names_trans<K1, K2: Eq + Hash, V>(m0: Map<K1, Partition<K2, 
 proof fn lemma_live_kept_remove<K1, K2: Eq + Hash, V>(m: Map<K1, Partition<K2, V>>, k: K1)
     ensures live_kept(m, m.remove(k))
 {}
+
+// C10 / C01: every cached tuple is filed under the record type of its own data (Cache::insert files by rtype(); pruning only removes)
+spec fn typed_map(m: Map<DomainName, Partition<RecordType, RecordTypeWithData>>) -> bool {
+    forall|k1: DomainName, k2: RecordType, i: int| m.contains_key(k1) && #[trigger] has_tuple(m[k1].records@, k2, i) ==> spec_rtype_of(m[k1].records@[k2]@[i].0) == k2
+}
+proof fn lemma_typed_subset(m0: Map<DomainName, Partition<RecordType, RecordTypeWithData>>, m1: Map<DomainName, Partition<RecordType, RecordTypeWithData>>)
+    requires typed_map(m0), live_kept(m0, m1)
+    ensures typed_map(m1)
+{
+    assert forall|k1: DomainName, k2: RecordType, i: int| m1.contains_key(k1) && #[trigger] has_tuple(m1[k1].records@, k2, i) implies spec_rtype_of(m1[k1].records@[k2]@[i].0) == k2 by {
+        let t = m1[k1].records@[k2]@[i];
+        assert(m0[k1].records@[k2]@.contains(t));
+        let j = choose|j: int| 0 <= j < m0[k1].records@[k2]@.len() && m0[k1].records@[k2]@[j] == t;
+        assert(has_tuple(m0[k1].records@, k2, j));
+    }
+}
+proof fn lemma_typed_same(a: PartitionedCache<DomainName, RecordType, RecordTypeWithData>, b: PartitionedCache<DomainName, RecordType, RecordTypeWithData>)
+    requires typed_map(a.partitions@), same_records(a, b)
+    ensures typed_map(b.partitions@)
+{
+    assert forall|k1: DomainName, k2: RecordType, i: int| b.partitions@.contains_key(k1) && #[trigger] has_tuple(b.partitions@[k1].records@, k2, i) implies spec_rtype_of(b.partitions@[k1].records@[k2]@[i].0) == k2 by {
+        assert(a.partitions@.contains_key(k1));
+        assert(has_tuple(a.partitions@[k1].records@, k2, i));
+    }
+}
+proof fn lemma_typed_upsert(m0: Map<DomainName, Partition<RecordType, RecordTypeWithData>>, m1: Map<DomainName, Partition<RecordType, RecordTypeWithData>>, pk: DomainName, key: RecordType, tup: (RecordTypeWithData, Instant), d: Option<int>)
+    requires typed_map(m0), spec_rtype_of(tup.0) == key, m1.contains_key(pk),
+        forall|k: DomainName| k != pk ==> (#[trigger] m1.contains_key(k) <==> m0.contains_key(k)),
+        forall|k: DomainName| k != pk && m0.contains_key(k) ==> (#[trigger] m1[k]).records == m0[k].records,
+        upsert_recs(recs_or_empty(m0, pk), m1[pk].records@, key, tup, d),
+    ensures typed_map(m1)
+{
+    let r0 = recs_or_empty(m0, pk); let r1 = m1[pk].records@;
+    let t0 = if r0.contains_key(key) { r0[key]@ } else { Seq::<(RecordTypeWithData, Instant)>::empty() };
+    assert forall|k1: DomainName, k2: RecordType, i: int| m1.contains_key(k1) && #[trigger] has_tuple(m1[k1].records@, k2, i) implies spec_rtype_of(m1[k1].records@[k2]@[i].0) == k2 by {
+        if k1 != pk {
+            assert(m0.contains_key(k1)); assert(has_tuple(m0[k1].records@, k2, i));
+        } else if k2 != key {
+            assert(r0.contains_key(k2) && r1[k2] == r0[k2]);
+            assert(m0.contains_key(pk)); assert(has_tuple(m0[pk].records@, k2, i));
+        } else {
+            let x = r1[key]@[i];
+            if x != tup {
+                match d {
+                    None => { assert(x == t0[i]); }
+                    Some(dd) => { if i == dd { assert(x == t0.last()); assert(has_tuple(m0[pk].records@, key, t0.len() - 1)); } else { assert(x == t0[i]); } }
+                }
+                assert(r0.contains_key(key));
+                assert(m0.contains_key(pk));
+                assert(exists|j: int| has_tuple(m0[pk].records@, key, j) && m0[pk].records@[key]@[j] == x) by {
+                    match d { None => { assert(has_tuple(m0[pk].records@, key, i)); } Some(dd) => { if i == dd { assert(has_tuple(m0[pk].records@, key, t0.len() - 1)); } else { assert(has_tuple(m0[pk].records@, key, i)); } } }
+                }
+            }
+        }
+    }
+}
+
+broadcast proof fn lemma_typed_subset_b(m0: Map<DomainName, Partition<RecordType, RecordTypeWithData>>, m1: Map<DomainName, Partition<RecordType, RecordTypeWithData>>)
+    requires typed_map(m0), #[trigger] live_kept(m0, m1)
+    ensures typed_map(m1)
+{ lemma_typed_subset(m0, m1); }
